@@ -21,7 +21,7 @@ CHECKS = {
    note="Trusted: lpx.rs (answers re-checked by the certificate verifier), snap.rs. Thin band |t*|<1e-4 is skipped, never asserted.",
    tech="runtime monitoring: before/after exact evaluation + removed-node audit with LP certificates"),
  "C04": dict(cat="exploration", design="§4 C04",
-   text="Random operation histories from all constructors run against the real library with a well-formedness walker, an exact step-wise functional model and panic/abort detection after every step, plus a usability battery at the end.",
+   text="Random operation histories from all constructors run against the real library with a well-formedness walker, an exact step-wise functional model and panic/abort detection after every step, plus a usability battery at the end. Also: chains of 60 000 - 300 000 decisions on a 2 MiB thread stack (stack overflow = abort attributed through the write-ahead marker), VERBOSE variants of compose, far-translated constructors, and the stored regression tree of repaired defect D11.",
    note="Trusted: hist.rs type model and exact step model, snap.rs walkers. Aborts are attributed through write-ahead markers by the supervisor.",
    tech="runtime monitoring: invariant walker + step-wise reference model over random histories, panic/abort detection"),
  "C05": dict(cat="exploration", design="§4 C05",
@@ -45,7 +45,7 @@ CHECKS = {
    note="Trusted: snap.rs path rows, lpx.rs.",
    tech="runtime monitoring: reference traversal + exact region/routing consistency oracle"),
  "C10": dict(cat="exploration", design="§4 C10",
-   text="Generated LP instances of every special class, Chebyshev programs with rational data, and every LP the library solves while pruning (hook log) are refereed by an exact simplex whose answers are re-checked by an independent certificate verifier.",
+   text="Generated LP instances of every special class, Chebyshev programs with rational data, and every LP the library solves while pruning (hook log) are refereed by an exact simplex whose answers are re-checked by an independent certificate verifier. Also: regression instances of repaired defects D10 (solver panic) and D12 (false Infeasible on rows of mixed magnitude), badly scaled / huge-magnitude / 0 x n classes.",
    note="Trusted: lpx.rs verifier (~60 lines of dot products and sign checks). Known finding K1 (minilp false 'unbounded') is recognised only when minilp called directly reports unbounded on the same LP.",
    tech="runtime monitoring: exact LP oracle with certificates over generated and logged queries"),
  "C11": dict(cat="fault_enumeration", design="§4 C11",
@@ -53,11 +53,11 @@ CHECKS = {
    note="Trusted: the hook in /repo/src/verif.rs (fault application), C03/C05 oracles. Faults model the failure modes the code anticipates; real HiGHS behaviour is not observable here.",
    tech="runtime monitoring with fault injection: exhaustive single-fault enumeration per case at the LP hook"),
  "C12": dict(cat="exploration", design="§4 C12",
-   text="Random operation histories on the arena tree are executed against the real Tree<u32,K>; after every operation a reference model, an invariant walker and (after Err) a full before/after snapshot comparison observe the result.",
+   text="Random operation histories on the arena tree are executed against the real Tree<u32,K>; after every operation a reference model, an invariant walker and (after Err) a full before/after snapshot comparison observe the result. Also: histories that grow to several hundred slots and shrink again (arena index far above len()), and merge calls whose precondition is violated.",
    note="Trusted: the reference model and walker in treemodel.rs; slab's allocation order is not modelled (fresh index taken from the return value).",
    tech="runtime monitoring: reference-model + invariant-walker oracle over random op histories"),
  "C13": dict(cat="exploration", design="§4 C13",
-   text="Every traversal (DfsPre, DfsEdge, Bfs, PolyhedraIter) is run from every node of random trees with random and repeated skip_subtree calls and compared item by item with reference traversals; size_hint is checked after every call against the true number of remaining items; all metrics are recomputed directly.",
+   text="Every traversal (DfsPre, DfsEdge, Bfs, PolyhedraIter) is run from every node of random trees with random and repeated skip_subtree calls and compared item by item with reference traversals; size_hint is checked after every call against the true number of remaining items; all metrics are recomputed directly. Also: metrics re-queried after reshaping the same tree, and a comb of 80 000 - 400 000 levels measured on a 2 MiB thread stack.",
    note="Trusted: reference traversals in c13.rs; skip before the first item is not generated.",
    tech="runtime monitoring: reference traversal oracle, size_hint bracket at every step"),
  "C14": dict(cat="exploration", design="§4 C14",
